@@ -291,7 +291,7 @@ CHECKS = {
         "level_note": "Single-threaded; the manager's own locking is not exercised here.",
         "stages": [{"driver": MGR,
                     "quick": {"procs": 8, "rc": (12000, 60)},
-                    "thorough": {"procs": 16, "rc": (40000, 100), "timeout": 7200}}],
+                    "thorough": {"procs": 16, "rc": (250000, 100), "timeout": 7200}}],
     },
     "C16": {
         "level": "exploration",
@@ -307,11 +307,11 @@ CHECKS = {
         "level_text": "Exhaustive (per generated program) over the states observable between critical sections; sampled over real interleavings with a linearizability oracle and happens-before race detection.",
         "level_note": "Cannot show absence of a bad interleaving inside correctly locked sections (none can exist) nor of races the sampled schedules never overlap; TSan needs only an overlap, not the bad outcome.",
         "stages": [{"driver": CONC, "args": ["--mode", "det"],
-                    "quick": {"procs": 6, "rc": (400, 80)}, "thorough": {"procs": 16, "rc": (1500, 200), "timeout": 7200}},
+                    "quick": {"procs": 6, "rc": (400, 80)}, "thorough": {"procs": 16, "rc": (8000, 200), "timeout": 7200}},
                    {"driver": CONC, "args": ["--mode", "thr"], "replay_tries": 30, "replay_need": 1, "ddmin": False,
-                    "quick": {"procs": 4, "rc": (50, 100)}, "thorough": {"procs": 6, "rc": (600, 200), "timeout": 7200}},
+                    "quick": {"procs": 4, "rc": (50, 100)}, "thorough": {"procs": 8, "rc": (2000, 200), "timeout": 7200}},
                    {"driver": CONC_TSAN, "args": ["--mode", "thr"], "replay_tries": 30, "replay_need": 1, "ddmin": False,
-                    "quick": {"procs": 4, "rc": (40, 100)}, "thorough": {"procs": 6, "rc": (500, 200), "timeout": 7200}}],
+                    "quick": {"procs": 4, "rc": (40, 100)}, "thorough": {"procs": 8, "rc": (2000, 200), "timeout": 7200}}],
     },
     "C18": {
         "level": "fault_enumeration",
